@@ -5,18 +5,21 @@ namespace Tars
 namespace Evolve
 open Consts WFField Skip
 
-/-- what `ResetDefault` leaves in one member: the explicit default if there is one; otherwise the
-    previous value (a nested struct is reset recursively) -/
+/-- what `ResetDefault` leaves in one member: the explicit default if there is one; otherwise a
+    nested struct is reset recursively and every other member gets its Go zero value -/
 def resetMember (env : Env) (fuel : Nat) (f : Field) (v : Val) : Val :=
   match f.dflt with
   | some d => d
   | none =>
-    match f.ty, v with
-    | .struct name, .struct inner =>
-      match env.find name with
-      | some ifs => .struct (resetDefault env fuel ifs inner)
-      | none => v
-    | _, _ => v
+    match f.ty with
+    | .struct _ =>
+      match f.ty, v with
+      | .struct name, .struct inner =>
+        match env.find name with
+        | some ifs => .struct (resetDefault env fuel ifs inner)
+        | none => v
+      | _, _ => v
+    | t => zeroOf env t
 
 theorem resetDefault_cons (env : Env) (F : Nat) (f : Field) (fs : List Field) (v : Val) (vs : List Val) :
     resetDefault env (F+1) (f :: fs) (v :: vs) = resetMember env F f v :: resetDefault env (F+1) fs vs := by
@@ -167,8 +170,10 @@ def isStructTy : Ty → Bool
 theorem resetMember_dflt (env : Env) (F : Nat) (f : Field) (v d : Val) (h : f.dflt = some d) :
     resetMember env F f v = d := by simp [resetMember, h]
 
+/-- a member without explicit default that is not a struct is set to its Go zero value, whatever
+    it held before -/
 theorem resetMember_plain (env : Env) (F : Nat) (f : Field) (v : Val) (h : f.dflt = none)
-    (hty : isStructTy f.ty = false) : resetMember env F f v = v := by
+    (hty : isStructTy f.ty = false) : resetMember env F f v = zeroOf env f.ty := by
   unfold resetMember
   rw [h]
   simp only
